@@ -79,6 +79,9 @@ type PresentationContext struct {
 // ErrUnsupportedFilter is returned when a filter uses unsupported features.
 // Other errors can be returned for faulty JSON paths or regex patterns.
 func (presentationDefinition PresentationDefinition) Match(vcs []vc.VerifiableCredential) ([]vc.VerifiableCredential, []InputDescriptorMappingObject, error) {
+	if err := presentationDefinition.checkNoNilEntries(); err != nil {
+		return nil, nil, err
+	}
 	var selectedVCs []vc.VerifiableCredential
 	var descriptorMaps []InputDescriptorMappingObject
 	var err error
@@ -93,11 +96,42 @@ func (presentationDefinition PresentationDefinition) Match(vcs []vc.VerifiableCr
 	return selectedVCs, descriptorMaps, nil
 }
 
+// ErrInvalidPresentationDefinition is returned when a presentation definition can't be used,
+// e.g. because it was unmarshalled from JSON (without schema validation) that contains null entries.
+var ErrInvalidPresentationDefinition = errors.New("invalid presentation definition")
+
+// checkNoNilEntries returns an error if the presentation definition contains a nil input descriptor or submission requirement.
+// ParsePresentationDefinition doesn't yield those (the JSON schema rejects null), but a definition that was unmarshalled
+// without schema validation can contain them, and they would be dereferenced while matching.
+func (presentationDefinition PresentationDefinition) checkNoNilEntries() error {
+	for _, inputDescriptor := range presentationDefinition.InputDescriptors {
+		if inputDescriptor == nil {
+			return fmt.Errorf("%w: input_descriptors contains null", ErrInvalidPresentationDefinition)
+		}
+	}
+	var check func(requirements []*SubmissionRequirement) error
+	check = func(requirements []*SubmissionRequirement) error {
+		for _, requirement := range requirements {
+			if requirement == nil {
+				return fmt.Errorf("%w: submission_requirements contains null", ErrInvalidPresentationDefinition)
+			}
+			if err := check(requirement.FromNested); err != nil {
+				return err
+			}
+		}
+		return nil
+	}
+	return check(presentationDefinition.SubmissionRequirements)
+}
+
 // ResolveConstraintsFields returns a map where each of the InputDescriptor constraints field is mapped,
 // to the corresponding value from the Verifiable Credentials that map to the InputDescriptor.
 // The credentialMap is a map with the InputDescriptor.Id as key and the VerifiableCredential as value.
 // Constraints that contain no ID are ignored.
 func (presentationDefinition PresentationDefinition) ResolveConstraintsFields(credentialMap map[string]vc.VerifiableCredential) (map[string]interface{}, error) {
+	if err := presentationDefinition.checkNoNilEntries(); err != nil {
+		return nil, err
+	}
 	result := make(map[string]interface{})
 	for inputDescriptorID, cred := range credentialMap {
 		// Find the input descriptor
@@ -128,6 +162,9 @@ func (presentationDefinition PresentationDefinition) ResolveConstraintsFields(cr
 func (presentationDefinition PresentationDefinition) CredentialsRequired() bool {
 	if len(presentationDefinition.SubmissionRequirements) > 0 {
 		for _, submissionRequirement := range presentationDefinition.SubmissionRequirements {
+			if submissionRequirement == nil {
+				continue
+			}
 			switch submissionRequirement.Rule {
 			case "all":
 				return true
